@@ -6,6 +6,8 @@ import (
 	"strings"
 
 	"github.com/cnotch/ipchub/av/format/rtp"
+	"github.com/cnotch/ipchub/config"
+	"github.com/cnotch/scheduler"
 	"github.com/cnotch/ipchub/media"
 	"github.com/cnotch/xlog"
 
@@ -85,22 +87,219 @@ func s1(k int) func(x *vrt.Exec) {
 	}
 }
 
+// S2: a consumer attaching while the stream is closed (or unregistered).
+func s2(viaUnregist bool, flv bool) func(x *vrt.Exec) {
+	return func(x *vrt.Exec) {
+		reset()
+		var s *media.Stream
+		if flv {
+			config.VerifSet(false, false, 5, "")
+			s = media.NewStream("/s2", sdpH264AAC)
+		} else {
+			s = media.VerifNewBareStream("/s2")
+		}
+		media.Regist(s)
+		x.SetInvariant(countInvariant(s, "S2"))
+		c := &recCons{}
+		attached := false
+		vrt.GoNamed("attacher", func() {
+			// what every transport does: look the stream up, then attach
+			if st := media.Get("/s2"); st != nil {
+				pt := media.RTPPacket
+				if flv {
+					pt = media.FLVPacket
+				}
+				st.StartConsume(c, pt, "late")
+				attached = true
+			}
+		})
+		if viaUnregist {
+			media.Unregist(s)
+		} else {
+			s.Close()
+		}
+		vrt.WhenIdle()
+		x.Observe("attached=%v closed=%d count=%d", attached, c.closed, s.ConsumerCount())
+		if attached && c.closed < 1 {
+			x.Failf("S2 attach-during-close consumer-not-closed", "consumer attached while the stream was closing is never closed (count=%d)", s.ConsumerCount())
+		}
+		if n := s.ConsumerCount(); n != 0 {
+			x.Failf("S2 count-nonzero", "ConsumerCount=%d after close", n)
+		}
+		if len(s.VerifRegistered()) != 0 {
+			x.Failf("S2 consumer-still-registered", "closed stream still has %d registered consumers", len(s.VerifRegistered()))
+		}
+		stuck(x, "S2")
+	}
+}
+
+// S3: StopConsume from an API thread racing the delivery goroutine's own cleanup and the
+// stream close; a second consumer must be unaffected by a single stop.
+func s3(withClose bool) func(x *vrt.Exec) {
+	return func(x *vrt.Exec) {
+		reset()
+		s := media.VerifNewBareStream("/s3")
+		x.SetInvariant(countInvariant(s, "S3"))
+		a, b := &recCons{name: "a"}, &recCons{name: "b"}
+		cidA := s.StartConsume(a, media.RTPPacket, "a")
+		s.StartConsume(b, media.RTPPacket, "b")
+		s.WriteRtpPacket(pkt(0))
+		vrt.GoNamed("api-stop", func() { s.StopConsume(cidA) })
+		if withClose {
+			vrt.GoNamed("closer", func() { s.Close() })
+		} else {
+			vrt.GoNamed("api-stop2", func() { s.StopConsume(cidA) })
+		}
+		s.WriteRtpPacket(pkt(1))
+		vrt.WhenIdle()
+		x.Observe("a.closed=%d b.closed=%d a.got=%d b.got=%d count=%d", a.closed, b.closed, len(a.got), len(b.got), s.ConsumerCount())
+		if a.closed < 1 {
+			x.Failf("S3 stopped-consumer-not-closed", "StopConsume returned but consumer.Close never ran")
+		}
+		if withClose {
+			if b.closed < 1 {
+				x.Failf("S3 consumer-not-closed", "stream closed but consumer b not closed")
+			}
+			if n := s.ConsumerCount(); n != 0 {
+				x.Failf("S3 count-nonzero", "ConsumerCount=%d after close", n)
+			}
+			stuck(x, "S3")
+		} else {
+			if b.closed != 0 {
+				x.Failf("S3 other-consumer-closed", "stopping a closed b as well")
+			}
+			if len(b.got) != 2 {
+				x.Failf("S3 other-consumer-disturbed", "b received %d of 2 packets", len(b.got))
+			}
+			if n := s.ConsumerCount(); n != 1 {
+				x.Failf("S3 count-wrong-after-stop", "ConsumerCount=%d, want 1 (only b attached)", n)
+			}
+			// only b's delivery goroutine may remain
+			for _, bl := range vrt.Blocked() {
+				if bl.Name != "media.c.consume" {
+					x.Failf("S3 stuck-goroutine "+bl.Name, "%s", bl.Frames)
+				}
+			}
+			if n := vrt.AliveNamed("media.c.consume"); n != 1 {
+				x.Failf("S3 stuck-goroutine media.(*consumption).consume", "%d delivery goroutines alive, want 1 (b)", n)
+			}
+			s.Close()
+			vrt.WhenIdle()
+			stuck(x, "S3")
+		}
+	}
+}
+
+// S4: full stream with converters (RTP demuxer, FLV muxer, TS muxer): all goroutines of the
+// stream must end at Close, whatever the interleaving.
+func s4(npk int) func(x *vrt.Exec) {
+	return func(x *vrt.Exec) {
+		reset()
+		config.VerifSet(false, false, 5, "")
+		s := media.NewStream("/s4", sdpH264AAC)
+		c := &recCons{}
+		f := &recCons{}
+		s.StartConsume(c, media.RTPPacket, "rtp")
+		s.StartConsume(f, media.FLVPacket, "flv")
+		for i := 0; i < npk; i++ {
+			s.WriteRtpPacket(pkt(i))
+		}
+		s.Close()
+		vrt.WhenIdle()
+		x.Observe("rtp.closed=%d flv.closed=%d count=%d", c.closed, f.closed, s.ConsumerCount())
+		if c.closed < 1 || f.closed < 1 {
+			x.Failf("S4 consumer-not-closed", "rtp.closed=%d flv.closed=%d", c.closed, f.closed)
+		}
+		if n := s.ConsumerCount(); n != 0 {
+			x.Failf("S4 count-nonzero", "ConsumerCount=%d after close", n)
+		}
+		stuck(x, "S4")
+	}
+}
+
+// S5: replacement by a new publisher on the same path, old stream with 0/1 consumers; then
+// the idle task fires.
+func s5(consumers int) func(x *vrt.Exec) {
+	return func(x *vrt.Exec) {
+		reset()
+		scheduler.VerifReset()
+		old := media.VerifNewBareStream("/s5")
+		media.Regist(old)
+		c := &recCons{}
+		var cid media.CID
+		if consumers > 0 {
+			cid = old.StartConsume(c, media.RTPPacket, "c")
+		}
+		nw := media.VerifNewBareStream("/s5")
+		other := media.VerifNewBareStream("/other")
+		oc := &recCons{}
+		media.Regist(other)
+		other.StartConsume(oc, media.RTPPacket, "oc")
+		vrt.GoNamed("replacer", func() { media.Regist(nw) })
+		if consumers > 0 {
+			vrt.GoNamed("leaver", func() { old.StopConsume(cid) })
+		}
+		vrt.WhenIdle()
+		// fire the replacement task (if one was posted) after the consumer has left
+		for _, j := range scheduler.Jobs() {
+			j.VerifFire()
+		}
+		vrt.WhenIdle()
+		x.Observe("old.status=%d closed=%d oc.closed=%d jobs=%d", old.VerifStatus(), c.closed, oc.closed, scheduler.Count())
+		if media.Get("/s5") != nw {
+			x.Failf("S5 replacement-not-live", "path does not resolve to the new stream")
+		}
+		if old.VerifStatus() == media.StreamOK {
+			x.Failf("S5 replaced-stream-still-open", "old stream not closed after replacement and consumer departure")
+		}
+		if consumers > 0 && c.closed < 1 {
+			x.Failf("S5 consumer-not-closed", "consumer of replaced stream not closed")
+		}
+		if oc.closed != 0 {
+			x.Failf("S5 other-stream-disturbed", "consumer of another stream was closed")
+		}
+		for _, bl := range vrt.Blocked() {
+			if bl.Name == "media.c.consume" && vrt.AliveNamed("media.c.consume") == 1 {
+				continue // other's delivery goroutine
+			}
+			x.Failf("S5 stuck-goroutine "+bl.Name, "%s", bl.Frames)
+		}
+	}
+}
+
+const sdpH264AAC = "v=0\r\no=- 0 0 IN IP4 127.0.0.1\r\ns=No Name\r\nc=IN IP4 127.0.0.1\r\nt=0 0\r\nm=video 0 RTP/AVP 96\r\na=rtpmap:96 H264/90000\r\n" +
+	"a=fmtp:96 packetization-mode=1; sprop-parameter-sets=Z2QAH6zZQFAFuhAAAAMAEAAAAwPI8YMZYA==,aO+8sA==; profile-level-id=64001F\r\na=control:streamid=0\r\n" +
+	"m=audio 0 RTP/AVP 97\r\na=rtpmap:97 MPEG4-GENERIC/44100/2\r\na=fmtp:97 profile-level-id=1;mode=AAC-hbr;sizelength=13;indexlength=3;indexdeltalength=3; config=121056E500\r\na=control:streamid=1\r\n"
+
 func scenarios(thorough bool) []runner.Scenario {
 	p := 2
+	sh := 1
 	if thorough {
 		p = 3
+		sh = 4
 	}
 	var out []runner.Scenario
 	for k := 0; k <= 2; k++ {
 		out = append(out, runner.Scenario{Name: fmt.Sprintf("S1-close-vs-delivery-k%d", k), Body: s1(k), P: p})
 	}
+	out = append(out,
+		runner.Scenario{Name: "S2-attach-vs-close", Body: s2(false, false), P: p},
+		runner.Scenario{Name: "S2-attach-vs-unregist", Body: s2(true, false), P: p},
+		runner.Scenario{Name: "S2-flv-attach-vs-close", Body: s2(false, true), P: p, Shards: sh},
+		runner.Scenario{Name: "S3-stop-vs-stop", Body: s3(false), P: p, Shards: sh},
+		runner.Scenario{Name: "S3-stop-vs-close", Body: s3(true), P: p, Shards: sh},
+		runner.Scenario{Name: "S4-converters-k0", Body: s4(0), P: p, Shards: sh},
+		runner.Scenario{Name: "S4-converters-k2", Body: s4(2), P: p, Shards: sh},
+		runner.Scenario{Name: "S5-replace-0", Body: s5(0), P: p},
+		runner.Scenario{Name: "S5-replace-1", Body: s5(1), P: p, Shards: sh},
+	)
 	return out
 }
 
 func main() {
 	xlog.ReplaceGlobal(xlog.New(xlog.NewNopCore()))
 	if runner.IsWorker() {
-		runner.RunWorker(append(scenarios(false), thoroughOnly()...))
+		runner.RunWorker(scenarios(false))
 	}
 	rep := report.New("C03", "exploration")
 	rep.Rule = "every interleaving (preemption-bounded DFS over all sync/atomic/map/cond operations) of each scenario on the real media layer; distinct = distinct (scenario, observation) outcomes"
@@ -109,4 +308,3 @@ func main() {
 	rep.Finish()
 }
 
-func thoroughOnly() []runner.Scenario { return nil }
